@@ -10,6 +10,7 @@
     mode <select|poll|epoll> suspend=<0|1>
     new <c> nb=<0|1> tmo=<ms>
     resume <c>
+    state                                              (print the current state)
     round r=<ids> w=<ids> e=<ids> out=<tokens>        (select, poll)
     round ev=<c:ioe,…> out=<tokens>                   (epoll)
   ids: comma separated or `-`;  token: kind.c.st.eli.ep.bs.wh
@@ -138,6 +139,7 @@ def stepLine (s : DSt) (ws : List String) : DSt × List String :=
       let d := resumeReq s.d c
       ({ s with d := d }, ["state " ++ showState d (s.mode == "epoll")])
     | none => (s, ["bad-op"])
+  | ["state"] => (s, ["state " ++ showState s.d (s.mode == "epoll")])
   | "round" :: rest =>
     match ((kvOf rest "out").getD "-" |> splitList).mapM parseOutc with
     | none => (s, ["bad-op"])
